@@ -22,12 +22,16 @@ type Job struct {
 	Script string   `json:"script"`
 	Abs    string   `json:"abs"`
 	Tags   []string `json:"tags,omitempty"`
+	Argv   []string `json:"argv,omitempty"` // command line template of the binary (@SCRIPT@ / @TEXT@), when not the default
 }
 
 // Input is the tab-free case input: "<cfg> <abstract program> :: <script>".
 func (j *Job) Input() string {
 	s := strings.Join(append(append([]string{}, j.Pre...), j.Script), " ;; ")
 	s = strings.ReplaceAll(strings.ReplaceAll(s, "\t", " "), "\n", " ")
+	if len(j.Argv) > 0 {
+		s = "zygo " + strings.Join(j.Argv, " ") + " ;; " + s
+	}
 	return j.Cfg + " " + j.Abs + " :: " + s
 }
 
